@@ -105,7 +105,7 @@ impl Prog {
     fn source(&self) -> (String, Vec<String>) {
         let mut src = self.decls.clone();
         let mut expect = Vec::new();
-        let chunks: Vec<&[(String, Vec<String>)]> = self.steps.chunks(8).collect();
+        let chunks: Vec<&[(String, Vec<String>)]> = self.steps.chunks(4).collect();
         for (k, ch) in chunks.iter().enumerate() {
             src.push_str(&format!("\npart{} :: fn do\n", k));
             for (code, e) in ch.iter() {
@@ -139,7 +139,31 @@ fn list_history(rng: &mut Rng, t: KT, nops: usize) -> Prog {
     // mutations of `l` or `l2` must not show through the other
     let mut model2: Vec<K> = Vec::new();
     for _ in 0..nops {
-        match rng.below(19) {
+        match rng.below(24) {
+            // library helpers re-entered from inside a callback of another helper call
+            19 => {
+                let n = model.len();
+                let exp = format!("[{}]", vec![n.to_string(); n].join(", "));
+                p.step("reentrant:map-in-map", format!("lc{i} :: l\nprint(list.map(lc{i}, pu x -> list.fold(list.map(lc{i}, pu y -> 1 end), 0, pu y, acc -> acc + y end) end))", i = p.steps.len()), vec![exp]);
+            }
+            20 => {
+                let exp = format!("[{}]", model.iter().map(|k| format!("[{}]", k.show())).collect::<Vec<_>>().join(", "));
+                p.step("reentrant:filter-in-map", format!("lc{i} :: l\nprint(list.map(lc{i}, pu x -> list.filter(lc{i}, pu y -> y == x end) end))", i = p.steps.len()), vec![exp]);
+            }
+            21 => {
+                p.step("reentrant:map-in-filter", format!("lc{i} :: l\nprint(list.filter(lc{i}, pu x -> list.map(lc{i}, pu y -> y end) == lc{i} end))\nprint(list.len(l))", i = p.steps.len()), vec![show_list(&model), model.len().to_string()]);
+            }
+            22 => {
+                let n = model.len() as i64;
+                p.step("reentrant:map-in-fold", format!("lc{i} :: l\nprint(list.fold(lc{i}, 0, pu x, acc -> acc + list.fold(list.map(lc{i}, pu y -> 2 end), 0, pu y, a2 -> a2 + y end) end))", i = p.steps.len()), vec![(2 * n * n).to_string()]);
+            }
+            23 => {
+                let mut exp = Vec::new();
+                for i in 0..model.len() {
+                    exp.push(format!("[{}]", (0..model.len()).map(|j| (i == j).to_string()).collect::<Vec<_>>().join(", ")));
+                }
+                p.step("reentrant:map-in-for_each", "list.for_each(l, fn x do\n    print(list.map(l, pu y -> y == x end))\nend)".to_string(), exp);
+            }
             14 | 15 => {
                 // keep the result of a filter (often one that rejects nothing)
                 let (f, kept): (String, Vec<K>) = match (t, rng.below(3)) {
@@ -290,11 +314,48 @@ fn dict_history(rng: &mut Rng, kt: KT, vt: KT, nops: usize) -> Prog {
     } else {
         format!("d: dict.Dict({}, {}) = dict.from_list([{}])\n", ty_name(kt), ty_name(vt), pairs.join(", "))
     };
+    let decls = format!("{}dcount: int = 0\n", decls);
     let mut p = Prog { decls, steps: Vec::new(), ops: Vec::new(), hazard: None };
     for _ in 0..nops {
         let k = few_keys(kt, rng);
         touched.insert(k.clone());
-        match rng.below(8) {
+        match rng.below(11) {
+            8 => {
+                // dict.map with the identity / a constant value; observed order-free on the touched keys
+                let constant = rng.chance(1, 2);
+                let f = if constant { "pu kv -> (kv[0], 7) end" } else { "pu kv -> (kv[0], kv[1]) end" };
+                let mut code = format!("dm{} :: dict.map(d, {})\nprint(dict.len(dm{}))\n", p.steps.len(), f, p.steps.len());
+                let mut exp = vec![model.len().to_string()];
+                for t in touched.iter().take(5) {
+                    code.push_str(&format!("print(dict.get(dm{}, {}))\n", p.steps.len(), t.lit()));
+                    exp.push(match model.get(t) {
+                        Some(v) if !constant => format!("Just {}", v.show()),
+                        Some(_) => "Just 7".to_string(),
+                        None => "None nil".to_string(),
+                    });
+                }
+                code.push_str("print(dict.len(d))");
+                exp.push(model.len().to_string());
+                p.step("map", code, exp);
+            }
+            9 => {
+                // dict.for_each: every entry visited exactly once (counted), callback re-enters dict.map
+                let n = model.len();
+                p.step(
+                    "for_each",
+                    "dcount = 0\ndict.for_each(d, fn kv do\n    dcount += 1 + dict.len(dict.map(dict.from_list([(1, 2), (3, 4)]), pu q -> q end))\nend)\nprint(dcount)".to_string(),
+                    vec![(3 * n).to_string()],
+                );
+            }
+            10 => {
+                // dict.map whose callback re-enters dict.map
+                let n = model.len();
+                p.step(
+                    "reentrant:map-in-map",
+                    format!("dn{} :: dict.map(d, pu kv -> (kv[0], dict.len(dict.map(dict.from_list([(1, 2), (3, 4)]), pu q -> q end))) end)\nprint(dict.len(dn{}))\nprint(dict.len(d))", p.steps.len(), p.steps.len()),
+                    vec![n.to_string(), n.to_string()],
+                );
+            }
             0 | 1 | 2 => {
                 let v = fresh(vt, &mut counter);
                 model.insert(k.clone(), v.clone());
@@ -341,10 +402,33 @@ fn set_history(rng: &mut Rng, kt: KT, nops: usize) -> Prog {
         init.push(k.lit());
     }
     let decls = if init.is_empty() { format!("s: set.Set({}) = set.new()\n", ty_name(kt)) } else { format!("s: set.Set({}) = set.from_list([{}])\n", ty_name(kt), init.join(", ")) };
+    let decls = format!("{}scount: int = 0\n", decls);
     let mut p = Prog { decls, steps: Vec::new(), ops: Vec::new(), hazard: None };
     for _ in 0..nops {
         let k = few_keys(kt, rng);
-        match rng.below(6) {
+        match rng.below(9) {
+            6 => {
+                // set.map with the identity: a set with the same members
+                let id = p.steps.len();
+                p.step(
+                    "map",
+                    format!("sm{} :: set.map(s, pu v -> v end)\nprint(set.len(sm{}))\nprint(set.contains(sm{}, {}))\nprint(sm{} == s)\nprint(set.len(s))", id, id, id, k.lit(), id),
+                    vec![model.len().to_string(), model.contains(&k).to_string(), "true".into(), model.len().to_string()],
+                );
+            }
+            7 => {
+                // set.map onto one value collapses to at most one member; the callback re-enters set.map
+                let id = p.steps.len();
+                p.step(
+                    "reentrant:map-in-map",
+                    format!("sn{} :: set.map(s, pu v -> set.len(set.map(set.from_list([1, 2, 3]), pu w -> w end)) end)\nprint(set.len(sn{}))\nprint(set.contains(sn{}, 3))", id, id, id),
+                    vec![if model.is_empty() { "0".to_string() } else { "1".to_string() }, (!model.is_empty()).to_string()],
+                );
+            }
+            8 => {
+                let n = model.len();
+                p.step("for_each", "scount = 0\nset.for_each(s, fn v do\n    scount += 1\nend)\nprint(scount)".to_string(), vec![n.to_string()]);
+            }
             0 | 1 => {
                 model.insert(k.clone());
                 p.step("add", format!("set.add(s, {})\nprint(set.len(s))", k.lit()), vec![model.len().to_string()]);
@@ -488,6 +572,11 @@ impl Check for C18 {
             Loaded::Ok(c) => c,
             Loaded::GreyZone(_) => {
                 st.count("no_verdict_grey_zone");
+                return;
+            }
+            Loaded::Error { class, .. } if class.starts_with("limit") => {
+                // the workload itself exceeds a Lua limit (C06's open finding KF-C06-lua-limits): nothing to judge here
+                st.count("no_verdict_lua_limit_exceeded");
                 return;
             }
             Loaded::Error { class, msg, .. } => {
